@@ -260,24 +260,27 @@ ObsTerm(P) == IF P.obs = "snapshot" THEN Node("all_ticks", <<Node("snapshot", <<
 
 CycNames(P) == DOMAIN P.cycles
 
+\* the lowered program: main term and one term per cycle definition
+LowProg(P) == [main |-> Lower(ObsTerm(P)), cdef |-> [c \in CycNames(P) |-> Lower(P.cycles[c])]]
+
 \* whole-program state: main tree, one tree per cycle definition, the deferred buffers
-RunInit(P) == [main |-> DInit(Lower(ObsTerm(P))),
-               cdef |-> [c \in CycNames(P) |-> DInit(Lower(P.cycles[c]))],
-               cyc |-> [c \in CycNames(P) |-> <<>>]]
+RunInit(L) == [main |-> DInit(L.main),
+               cdef |-> [c \in DOMAIN L.cdef |-> DInit(L.cdef[c])],
+               cyc |-> [c \in DOMAIN L.cdef |-> <<>>]]
 
 \* one tick: [out, st]
-RunTick(P, rs, B, k) ==
-    LET m == DStep(Lower(ObsTerm(P)), rs.main, B, k, rs.cyc)
-        cd == [c \in CycNames(P) |-> DStep(Lower(P.cycles[c]), rs.cdef[c], B, k, rs.cyc)]
+RunTick(L, rs, B, k) ==
+    LET m == DStep(L.main, rs.main, B, k, rs.cyc)
+        cd == [c \in DOMAIN L.cdef |-> DStep(L.cdef[c], rs.cdef[c], B, k, rs.cyc)]
     IN [out |-> m.out,
-        st |-> [main |-> m.st, cdef |-> [c \in CycNames(P) |-> cd[c].st],
-                cyc |-> [c \in CycNames(P) |-> cd[c].out]]]
+        st |-> [main |-> m.st, cdef |-> [c \in DOMAIN L.cdef |-> cd[c].st],
+                cyc |-> [c \in DOMAIN L.cdef |-> cd[c].out]]]
 
 RECURSIVE RunFrom(_, _, _, _)
-RunFrom(P, rs, B, k) ==
+RunFrom(L, rs, B, k) ==
     IF k > Len(B) THEN <<>>
-    ELSE LET r == RunTick(P, rs, B, k) IN <<r.out>> \o RunFrom(P, r.st, B, k + 1)
-Run(P, B) == RunFrom(P, RunInit(P), B, 1)
+    ELSE LET r == RunTick(L, rs, B, k) IN <<r.out>> \o RunFrom(L, r.st, B, k + 1)
+Run(P, B) == LET L == LowProg(P) IN RunFrom(L, RunInit(L), B, 1)
 
 \* DFIR operators of the lowered program (for comparison with the generated code)
 RECURSIVE OpNames(_)
